@@ -319,7 +319,19 @@ pub fn read_file(state: &SystemState, path: &str) -> Option<Vec<u8>> {
 }
 
 /// Run the complete shell on the virtual system under the given schedule strategy.
-pub fn run_v(mut cfg: VCfg) -> VOut {
+pub fn run_v(cfg: VCfg) -> VOut {
+    // a run that never comes back (a virtual process that loops without ever yielding cannot be
+    // stopped by the step bound) is caught by the CPU-time watchdog, which needs to know the case
+    crate::util::guard_case(|| {
+        let stdin: String = String::from_utf8_lossy(&cfg.stdin).chars().take(6000).collect();
+        format!("run on the virtual system, arguments {:?}, schedule {:?}, injected process-creation failure {:?}\nstandard input:\n{stdin}", cfg.args, cfg.strategy, cfg.fail_spawn)
+    });
+    let out = run_v_inner(cfg);
+    crate::util::unguard_case();
+    out
+}
+
+fn run_v_inner(mut cfg: VCfg) -> VOut {
     EVENTS.with(|v| v.borrow_mut().clear());
     let system = VirtualSystem::new();
     let state = Rc::clone(&system.state);
@@ -609,8 +621,11 @@ fn pvar_main<S: yash_env::system::GetPid>(
 
 /// The deterministic byte stream of `gen N SEED [K]`: printable bytes, a newline after every K-th
 /// byte if K > 0.
-pub fn gen_stream(n: usize, seed: u64, k: usize, trailing: usize) -> Vec<u8> {
+/// `blanks` white-space bytes (space, tab, CR, VT, FF in turn) come between the body and the
+/// `trailing` newlines
+pub fn gen_stream(n: usize, seed: u64, k: usize, trailing: usize, blanks: usize) -> Vec<u8> {
     let mut v = gen_body(n, seed, k);
+    v.extend((0..blanks).map(|i| b" \t\r\x0b\x0c"[(i + seed as usize) % 5]));
     v.extend(std::iter::repeat_n(b'\n', trailing));
     v
 }
@@ -640,7 +655,8 @@ where
         let seed: u64 = args.get(1).and_then(|f| f.value.parse().ok()).unwrap_or(0);
         let k: usize = args.get(2).and_then(|f| f.value.parse().ok()).unwrap_or(0);
         let t: usize = args.get(3).and_then(|f| f.value.parse().ok()).unwrap_or(0);
-        let data = gen_stream(n, seed, k, t);
+        let w: usize = args.get(4).and_then(|f| f.value.parse().ok()).unwrap_or(0);
+        let data = gen_stream(n, seed, k, t, w);
         match env.system.write_all(Fd::STDOUT, &data).await {
             Ok(()) => yash_env::builtin::Result::new(ExitStatus::SUCCESS),
             Err(_) => yash_env::builtin::Result::new(ExitStatus::FAILURE),
